@@ -352,8 +352,16 @@ func c20Totality(r *eng.Run) {
 				cell = "total/documented-panic"
 			}
 			w.Cell(cell, want)
-			if p != want {
+			if p && !want {
 				w.R.Fail(eng.Case{Op: "total:" + c.name, Args: []string{b.Hex()}, Got: fmt.Sprint("panicked=", p, " ", msg), Want: fmt.Sprint("panics=", want), Note: v.String()})
+				continue
+			}
+			if want && !p {
+				// the property permits the documented panics, it does not demand them: a change that returns a
+				// value instead is not a violation of totality (counted, not flagged)
+				w.Cell("total/documented-panic-absent", true)
+			}
+			if p {
 				continue
 			}
 			if strings.Contains(o1, "PANIC=") {
